@@ -415,6 +415,40 @@ def packetized_case(rng, drain):
     return "T,%d,%d|" % (wmtu, rmtu) + ";".join(ops)
 
 
+def loop_case(rng, kind, big):
+    """several packets waiting at the receiver's device, one DoInput(maxBytes) call each time: the read loop and its byte limit"""
+    mode = rng.choice("RRB")
+    magic = PMAGIC if kind == "P" else NMAGIC
+    mtu = rng.choice([25, 30, 48, 64, 100]) if kind == "P" else rng.choice([17, 20, 40, 64, 100])
+    m = eff_mtu(kind, mtu)
+    ns = rng.choice([1, 1, 2])
+    ops = []
+    total = 0
+    for i in range(ns):
+        ops.append("S:%d:%d:%d:%d:0:%d" % (i, 5 + i, mtu, magic, 0))
+        sizes = []
+        for _ in range(rng.choice([1, 2, 3, 5])):
+            b = payload(rng, rng.choice(size_choices(rng, kind, m, mode, big)), rng.choice(["ramp", "rand"]))
+            sizes.append(len(b)); ops.append("A:%d:%s" % (i, b.hex()))
+        ops.append("O:%d:%d:%d" % (i, NOLIM, BIG))
+        total += sim_packets(kind, m, sizes)
+    perfect = rng.random() < 0.5
+    j = 0
+    while j < total:
+        k = rng.choice([1, 2, 3, 4, total])
+        idx = list(range(j, min(total, j + k)))
+        if perfect:
+            ops.append("L:%d:%s" % (NOLIM, ",".join(map(str, idx))))
+        else:
+            if rng.random() < 0.3:
+                rng.shuffle(idx)
+            if rng.random() < 0.2:
+                idx = idx + idx[:1]
+            ops.append("L:%d:%s" % (rng.choice([NOLIM, NOLIM, 0, 1, m - 1, m, m + 1, 2 * m, 3 * m]), ",".join(map(str, idx))))
+        j += k
+    return head(kind, mode, mtu, magic) + "|" + ";".join(ops)
+
+
 def exhaustive_cases(kind, maxlen):
     """all delivery sequences of length <= maxlen over the packets of one fixed 3-message scenario"""
     out = []
@@ -470,7 +504,7 @@ class CHECK(vlib.Check):
     modelled = ("iogateway/PacketTunnelIOGateway.cpp: DoOutputImplementation (fragmenting writer: message-id counter with uint32 wrap, "
                 "offset cursor, several fragments per packet, MTU clamp, a packet the transport refuses is held and topped up) and "
                 "DoInputImplementation (fragment header parse incl. the break conditions magic / source-exclusion id / chunk fits / "
-                "max incoming size, per-source receive states with LRU order and eviction above MAX_NUM_RECEIVE_STATES, restart rule, "
+                "max incoming size, the read loop with its byte limit, per-source receive states with LRU order and eviction above MAX_NUM_RECEIVE_STATES, restart rule, "
                 "acceptance test with the uint32 overflow guard, delivery and reset, misc-data pass-through, truncation to the receiver's MTU). "
                 "iogateway/MiniPacketTunnelIOGateway.cpp: packet/chunk framing, 24-bit packet id, drop of oversize buffers, per-packet "
                 "compression decision and header patch, receive side incl. inflate failure. "
@@ -549,6 +583,10 @@ class CHECK(vlib.Check):
             out.append(("N-foreign", forged_case(rng, "N", big)))
         for c in exhaustive_cases("N", 3 if q else 5):
             out.append(("N-exhaustive", c))
+        for _ in range(rep(120)):
+            out.append(("P-readloop", loop_case(rng, "P", big)))
+        for _ in range(rep(80)):
+            out.append(("N-readloop", loop_case(rng, "N", big)))
         for _ in range(rep(250)):
             out.append(("T-packetized", packetized_case(rng, False)))
         for _ in range(rep(250)):
@@ -604,7 +642,7 @@ class CHECK(vlib.Check):
         b = case.split("|", 1)[1] if "|" in case else ""
         if case.startswith("T,"):
             return ("W:" in b) and ("R:" in b)
-        return ("A:" in b) and ("O:" in b) and bool(re.search(r"(^|;)[DEX]:", b))
+        return ("A:" in b) and ("O:" in b) and bool(re.search(r"(^|;)[DEXL]:", b))
 
     def distribution(self, sc):
         d = {}
